@@ -500,7 +500,10 @@ def run_trace(name, tier, seed, work):
             if d['kind'] == 'state':
                 m['fields'] = []
                 for f in d['fields']:
-                    m['fields'] += deep_diff((d.get('spec') or {}).get(f), rec['state'].get(f), f)
+                    if f in (d.get('spec') or {}):
+                        m['fields'] += deep_diff((d.get('spec') or {}).get(f), rec['state'].get(f), f)
+                    else:
+                        m['fields'].append(f)       # nested field name reported by the trace spec itself (composite models)
                 m['detail'] = dict(spec={f: (d.get('spec') or {}).get(f) for f in d['fields'][:4]})
             elif d['kind'] == 'resp':
                 m['fields'] = deep_diff(d.get('spec'), rec.get('resp'))
@@ -536,7 +539,7 @@ def write_replay(pid, fam_result, m, seed):
     os.makedirs(REPLAYS, exist_ok=True)
     if fam_result.get('is_trace') and m.get('reset'):
         seed = m['reset']['seed']
-        fam_result = dict(fam_result, scale=m['reset']['scale'], walker={'l1': 'l1-walk', 'l2': 'l2-walk', 'val': 'val-walk'}.get(fam_result.get('mod'), fam_result['walker']), meta=dict(driver=True))
+        fam_result = dict(fam_result, scale=m['reset']['scale'], walker={'l1': 'l1-walk', 'l2': 'l2-walk', 'val': 'val-walk', 'br': 'bridge-walk'}.get(fam_result.get('mod'), fam_result['walker']), meta=dict(driver=True))
     body = dict(property=pid, family=fam_result['name'], walker=fam_result['walker'], seed=seed, scale=fam_result['scale'], tickscale=fam_result.get('tickscale') or '1',
                 meta=fam_result['meta'], path=m.get('path') or [], event=m.get('event'), expect=dict(
                     spec_ok=m.get('spec_ok'), failed_guards=m.get('failed_guards'), fields=m.get('fields'), detail=m.get('detail')),
